@@ -3,6 +3,7 @@ package props
 import (
 	"bufio"
 	"bytes"
+	sflate "compress/flate"
 	"fmt"
 	"io"
 	"strings"
@@ -22,7 +23,7 @@ func init() { register(c05{}) }
 func (c05) ID() string            { return "C05" }
 func (c05) EvidenceLevel() string { return "exploration" }
 func (c05) Rule() string {
-	return "case = (container kind flate/gzip/zlib, valid stream S incl. synthesised streams whose last block is stored/fixed/dynamic and ends at each bit position, suffix T of 0..5000 bytes (random or another valid stream)) x every source kind {*bufio.Reader of 16,17,64,4095,4096,4097,65536; *bytes.Reader; *bytes.Buffer; *strings.Reader; a custom io.ByteReader} x constructor {NewReader, Reset}. After the Reader returned io.EOF (gzip: Multistream(false)) the decoded bytes must be the payload and io.ReadAll(source) must be exactly T. Non-trivial: T non-empty; distinct by (S digest, T digest, source kind, constructor)."
+	return "case 0 = end-of-stream sweep: final fixed blocks and final dynamic blocks with an end-of-block code of 1..15 bits, ending at each bit position, followed by every value of the next eight bits, and final stored blocks of 0..12 bytes, all on *bufio.Reader sources of 16/64/4096 bytes (about 36000 streams, each first accepted by compress/flate). Other cases: case = (container kind flate/gzip/zlib, valid stream S incl. synthesised streams whose last block is stored/fixed/dynamic and ends at each bit position, suffix T of 0..5000 bytes (random or another valid stream)) x every source kind {*bufio.Reader of 16,17,64,4095,4096,4097,65536; *bytes.Reader; *bytes.Buffer; *strings.Reader; a custom io.ByteReader} x constructor {NewReader, Reset}. After the Reader returned io.EOF (gzip: Multistream(false)) the decoded bytes must be the payload and io.ReadAll(source) must be exactly T. Non-trivial: T non-empty; distinct by (S digest, T digest, source kind, constructor)."
 }
 func (c05) NumCases(tier string) int {
 	if tier == "thorough" {
@@ -72,7 +73,143 @@ func c05Source(kind string, data []byte) io.Reader {
 	return bufio.NewReaderSize(bytes.NewReader(d), n)
 }
 
-func (c05) Run(c *mon.Ctx, i int) {
+// endSweep enumerates the last few bits of a stream against the first bits
+// that follow it: final fixed blocks and final dynamic blocks whose
+// end-of-block code is 1..15 bits long, ending at each of the eight bit
+// positions, followed by every value of the next eight bits (padding bits and
+// the first byte behind the stream); final stored blocks of 0..12 bytes behind
+// 0..3 bits of earlier data. Every stream is first decoded with compress/flate
+// (which must accept it and is the expected output), then by fastgo on a
+// *bufio.Reader, whose position afterwards must be the first byte behind the
+// stream.
+func (c05) endSweep(c *mon.Ctx) {
+	r := c.R
+	var rd impl.FlateReader
+	n := 0
+	try := func(shape string, all []byte, clen int) bool {
+		container, T := all[:clen], all[clen:]
+		want, err := io.ReadAll(sflate.NewReader(bytes.NewReader(container)))
+		if err != nil {
+			c.Count("end-sweep-streams-not-accepted-by-compress/flate", 1)
+			return true
+		}
+		n++
+		bsz := []int{16, 64, 4096}[n%3]
+		src := bufio.NewReaderSize(bytes.NewReader(append([]byte(nil), all...)), bsz)
+		var got []byte
+		var ferr error
+		pv, st := mon.Safe(func() {
+			if rd == nil || n%2 == 0 {
+				rd = c.API.NewFlateReader(src)
+			} else {
+				rd.Reset(src, nil)
+			}
+			got, ferr = io.ReadAll(rd)
+		})
+		c.Eval(1)
+		d := map[string]interface{}{"shape": shape, "stream_and_suffix": fmt.Sprintf("%x", all), "stream_len": clen, "source": fmt.Sprintf("bufio%d", bsz)}
+		where := fmt.Sprintf("wrapper=flate|ctor=end-sweep|src=bufio%d", bsz)
+		if pv != nil {
+			d["stack"] = st
+			c.Violate("panic|"+mon.PanicSite(st)+"|"+where, fmt.Sprintf("panicked: %v", pv), d)
+			return false
+		}
+		if ferr != nil || !bytes.Equal(got, want) {
+			c.Violate("valid-container-misread|"+errKind(ferr)+"|"+where, fmt.Sprintf("%s: %d bytes then %v; compress/flate reads %d bytes", shape, len(got), ferr, len(want)), d)
+			return false
+		}
+		rest, _ := io.ReadAll(src)
+		if !bytes.Equal(rest, T) {
+			d["left_in_source"] = len(rest)
+			d["expected_left"] = len(T)
+			sig := "rest-differs|"
+			if len(rest) < len(T) {
+				sig = "over-read|"
+			} else if len(rest) > len(T) {
+				sig = "under-read|"
+			}
+			c.Violate(sig+where, fmt.Sprintf("%s: %d bytes are left in the source, %d follow the stream", shape, len(rest), len(T)), d)
+			return false
+		}
+		c.Count("end-sweep-positions-exact", 1)
+		return true
+	}
+	finish := func(s *synth.Stream, v int) ([]byte, int) {
+		clen := int((s.W.BitLen() + 7) / 8)
+		s.W.Bits(uint32(v), 8)
+		s.W.Align()
+		tail := r.Bytes([]int{1, 2, 40}[v%3])
+		return append(append([]byte(nil), s.W.Bytes()...), tail...), clen
+	}
+	// final fixed block: literal counts shift the alignment (8- and 9-bit codes)
+	for k := 0; k < 16; k++ {
+		for v := 0; v < 256; v++ {
+			s := synth.NewStream(r)
+			var toks []synth.Token
+			for j := 0; j < k; j++ {
+				toks = append(toks, synth.Lit(byte(100+100*(j%2))))
+			}
+			s.Fixed(true, toks, true)
+			all, clen := finish(s, v)
+			if !try(fmt.Sprintf("fixed-final/%d-literals/next8bits=%02x", k, v), all, clen) {
+				return
+			}
+		}
+	}
+	// final dynamic block with an end-of-block code of L bits
+	for L := 1; L <= 15; L++ {
+		lit := make([]int, 257)
+		for j := 1; j < L; j++ {
+			lit['a'+j-1] = j
+		}
+		lit['a'+L-1] = L
+		lit[256] = L
+		for k := 0; k < 8; k++ {
+			for v := 0; v < 256; v++ {
+				s := synth.NewStream(r)
+				var toks []synth.Token
+				for j := 0; j < k; j++ {
+					toks = append(toks, synth.Lit('a')) // a 1-bit code (L bits when L == 1)
+				}
+				sp := synth.NewDynSpec()
+				sp.LitLens, sp.DistLens = lit, []int{1}
+				s.Dynamic(true, toks, sp, true)
+				all, clen := finish(s, v)
+				if !try(fmt.Sprintf("dynamic-final/eob-%d-bits/%d-literals/next8bits=%02x", L, k, v), all, clen) {
+					return
+				}
+			}
+		}
+	}
+	// final stored block of 0..12 bytes behind 0..3 literals of a fixed block
+	for k := 0; k < 4; k++ {
+		for ln := 0; ln <= 12; ln++ {
+			for _, tl := range []int{1, 2, 3, 5, 8, 40} {
+				s := synth.NewStream(r)
+				if k > 0 {
+					var toks []synth.Token
+					for j := 0; j < k; j++ {
+						toks = append(toks, synth.Lit(byte(200+j)))
+					}
+					s.Fixed(false, toks, true)
+				}
+				s.Stored(true, r.Bytes(ln))
+				clen := len(s.W.Bytes())
+				all := append(append([]byte(nil), s.W.Bytes()...), r.Bytes(tl)...)
+				if !try(fmt.Sprintf("stored-final/%d-bytes/behind-%d-literals/suffix-%d", ln, k, tl), all, clen) {
+					return
+				}
+			}
+		}
+	}
+	c.Nontrivial("end-sweep")
+}
+
+func (p c05) Run(c *mon.Ctx, i int) {
+	if i == 0 {
+		p.endSweep(c)
+		return
+	}
 	r := c.R
 	wrapper := []string{"flate", "flate", "gzip", "zlib"}[i%4]
 	// payload and container
